@@ -1,1 +1,279 @@
-def main : IO Unit := IO.println "stub"
+import Nsq.Model.Line
+import Nsq.Model.Life
+import Nsq.Model.InFlight
+import Nsq.Model.Restart
+/-
+drv_e5: replays the op lines written by harness/e5/*_test.go through the Lean models
+(Life = C08 atomic, InFlight = C08 micro-step) and prints one canonical answer line per op.
+-/
+open Nsq.Line
+open Nsq.Model
+
+namespace E5
+
+def b01 (b : Bool) : String := if b then "1" else "0"
+
+def parseB (s : String) : Bool := s == "1"
+
+def sortStrings (l : List String) : List String := (l.toArray.qsort (· < ·)).toList
+def sortNats (l : List Nat) : List Nat := (l.toArray.qsort (· < ·)).toList
+
+def joinC (l : List String) : String := String.intercalate "," l
+
+def ansStr : Life.Ans → String
+  | .ok => "ok"
+  | .noTopic => "notopic"
+  | .noChan => "nochan"
+  | .exiting => "exiting"
+  | .notAllowed => "not-allowed"
+  | .failed => "failed"
+
+def chanDump (C : Life.Chan) : String :=
+  let inf := sortStrings (C.inflight.map (fun e => s!"{e.1.id}:{e.1.attempts}:{e.2}"))
+  let df := sortStrings (C.deferred.map (fun m => s!"{m.id}"))
+  let cl := (C.clients.toArray.qsort (fun a b => a.id < b.id)).toList.map (fun k => s!"{k.id}:{k.inFlight}")
+  s!"C {C.name} e={b01 C.eph} p={b01 C.paused} ml={C.memLen} dl={C.diskLen} if=[{joinC inf}] df=[{joinC df}] cl=[{joinC cl}] n={C.msgCount}"
+
+def topicDump (T : Life.Topic) : String :=
+  let cs := (T.chans.toArray.qsort (fun a b => a.name < b.name)).toList
+  let head := s!"T {T.name} e={b01 T.eph} p={b01 T.paused} ml={T.memLen} dl={T.diskLen} n={T.msgCount}"
+  cs.foldl (fun acc C => acc ++ " | " ++ chanDump C) head
+
+def dump (s : Life.St) : String :=
+  let ts := (s.topics.toArray.qsort (fun a b => a.name < b.name)).toList
+  let closed := (sortNats s.closed.eraseDups).map toString
+  String.intercalate " ; " (ts.map topicDump ++ [s!"closed=[{joinC closed}]"])
+
+def metaStr (s : Life.St) : String :=
+  let ts := (Life.persisted s).map (fun t =>
+    let cs := sortStrings (t.2.2.map (fun c => c.1 ++ ":" ++ b01 c.2))
+    t.1 ++ ":" ++ b01 t.2.1 ++ "[" ++ joinC cs ++ "]")
+  "meta " ++ String.intercalate ";" (sortStrings ts)
+
+def filesStr (s : Life.St) : String :=
+  let names := s.files.map (fun b => match b.2 with | none => b.1 | some c => b.1 ++ ":" ++ c)
+  "files " ++ joinC (sortStrings names)
+
+def settle (s : Life.St) : Life.St :=
+  s.topics.foldl (fun acc T => (Life.step acc (Life.Op.pump T.name)).1) s
+
+def lifeOp (s : Life.St) (w : List String) : Option (Life.St × String) :=
+  let ap (o : Life.Op) : Option (Life.St × String) :=
+    let r := Life.step s o
+    some (r.1, ansStr r.2)
+  match w with
+  | ["new", m] => some (Life.init m.toNat!, "ok")
+  | ["ctopic", t, e] => ap (.createTopic t (parseB e))
+  | ["cchan", t, c, e] => ap (.createChan t c (parseB e))
+  | ["dtopic", t] => ap (.deleteTopic t)
+  | ["dchan", t, c] =>
+    let r := Life.step s (.deleteChanBegin t c)
+    if r.2 != Life.Ans.ok then some (r.1, ansStr r.2)
+    else
+      let r2 := Life.step r.1 (.deleteChanUnlink t c)
+      some (r2.1, ansStr r2.2)
+  | ["etopic", t] => ap (.emptyTopic t)
+  | ["echan", t, c] => ap (.emptyChan t c)
+  | ["ptopic", t, p] => ap (.pauseTopic t (parseB p))
+  | ["pchan", t, c, p] => ap (.pauseChan t c (parseB p))
+  | ["pub", t, id, ts, body] =>
+    match id.toNat?, ts.toInt?, unhex body with
+    | some i, some tsv, some b => ap (.pub t { id := i, ts := tsv, attempts := 0, body := b })
+    | _, _, _ => none
+  | ["settle"] => some (settle s, "ok")
+  | ["sub", t, c, k] => ap (.sub t c k.toNat!)
+  | ["unsub", t, c, k] =>
+    let r := Life.step s (.unsub t c k.toNat!)
+    match Life.getChan r.1 t c with
+    | some C =>
+      if C.exiting then
+        let r2 := Life.step r.1 (.deleteChanUnlink t c)
+        some (r2.1, ansStr r2.2)
+      else some (r.1, ansStr r.2)
+    | none => some (r.1, ansStr r.2)
+  | ["deliver", t, c, k, src, id] =>
+    let r := Life.step s (.deliver t c k.toNat! (src == "mem") id.toNat!)
+    if r.2 != Life.Ans.ok then some (r.1, ansStr r.2)
+    else
+      match Life.getChan r.1 t c with
+      | some C =>
+        match C.inflight.find? (fun e => e.1.id == id.toNat!) with
+        | some e => some (r.1, s!"ok att={e.1.attempts} ts={e.1.ts} body={hex e.1.body}")
+        | none => some (r.1, "ok ?")
+      | none => some (r.1, "ok ?")
+  | ["fin", t, c, k, id] => ap (.fin t c k.toNat! id.toNat!)
+  | ["req", t, c, k, id, d] => ap (.req t c k.toNat! id.toNat! (parseB d))
+  | ["release", t, c, id] => ap (.release t c id.toNat!)
+  | ["dump"] => some (s, dump s)
+  | ["meta"] => some (s, metaStr s)
+  | ["files"] => some (s, filesStr s)
+  | _ => none
+
+
+/-! ### micro-step model (`if …` lines) -/
+
+structure MS where
+  fixed : Bool := false
+  st : InFlight.St := InFlight.initSt []
+  known : List Nat := []
+  dead : Bool := false
+
+def contStr : InFlight.Cont → String
+  | .finAfterPop o => s!"fin.{o}@fin.afterPop"
+  | .reqAfterPop o _ => s!"req.{o}@req.afterPop"
+  | .reqAfterRemove o _ => s!"req.{o}@req.afterRemove"
+  | .touchAfterPop o => s!"touch.{o}@touch.afterPop"
+  | .touchAfterRemove o => s!"touch.{o}@touch.afterRemove"
+  | .touchAfterMapPush o => s!"touch.{o}@touch.afterMapPush"
+  | .inflightAfterMapPush o => s!"start.{o}@inflight.afterMapPush"
+  | .scanAfterPQPop o => s!"scan.{o}@scan.afterPQPop"
+  | .emptyAfterInflightReset => "empty.0@empty.afterInflightReset"
+  | .emptyAfterInitPQ => "empty.0@empty.afterInitPQ"
+  | .deferAfterMapPush o => s!"req.{o}@deferred.afterMapPush"
+  | .dscanAfterPQPop o => s!"dscan.{o}@dscan.afterPQPop"
+
+def microDump (m : MS) : String :=
+  let s := m.st
+  let mp := sortStrings (s.map.map toString)
+  let pq := s.h.pq.map toString
+  let dm := sortStrings (s.dmap.map toString)
+  let dq := sortStrings (s.dpq.map (fun e => s!"{e.1}:{e.2}"))
+  let q := sortStrings (s.queued.map toString)
+  let objs := (sortNats m.known).map (fun o =>
+    let x := s.h.objs o
+    s!"{o}:{x.index}:{x.client}:{x.pri}")
+  let cs := sortStrings (s.conts.map contStr)
+  s!"map=[{joinC mp}] pq=[{joinC pq}] dmap=[{joinC dm}] dpq=[{joinC dq}] q=[{joinC q}] obj=[{joinC objs}] conts=[{joinC cs}]"
+
+/-- apply a list of micro-steps; `none` = panic, disabled steps abort with "disabled" -/
+def applySteps (fixed : Bool) (s : InFlight.St) : List InFlight.Step → Except String InFlight.St
+  | [] => .ok s
+  | a :: as =>
+    match InFlight.step fixed s a with
+    | InFlight.Res.ok s' => applySteps fixed s' as
+    | InFlight.Res.panic => .error "panic"
+    | InFlight.Res.disabled => .error "disabled"
+
+def dscanLoop (fixed : Bool) (t : Int) : Nat → InFlight.St → Except String InFlight.St
+  | 0, s => .ok s
+  | fuel + 1, s =>
+    match InFlight.step fixed s (.dscanPeek t) with
+    | InFlight.Res.ok s1 =>
+      match s1.conts with
+      | InFlight.Cont.dscanAfterPQPop o :: _ =>
+        if s1.conts.length > s.conts.length then
+          let had := decide (o ∈ s1.dmap)
+          match InFlight.step fixed s1 (.dscanPop o) with
+          | InFlight.Res.ok s2 => if had then dscanLoop fixed t fuel s2 else .ok s2
+          | _ => .error "disabled"
+        else .ok s1
+      | _ => .ok s1
+    | InFlight.Res.panic => .error "panic"
+    | InFlight.Res.disabled => .error "disabled"
+
+def microOp (m : MS) (w : List String) : MS × String :=
+  let fin (r : Except String InFlight.St) (okAns : InFlight.St → String) : MS × String :=
+    match r with
+    | .ok s' => ({ m with st := s' }, okAns s')
+    | .error "panic" => ({ m with dead := true }, "panic")
+    | .error e => (m, e)
+  let s := m.st
+  let f := m.fixed
+  match w with
+  | ["new", fx] => ({ fixed := fx == "1" }, "ok")
+  | ["dump"] => (m, microDump m)
+  | ["put", o] =>
+    let r := fin (applySteps f s [.put o.toNat!]) (fun _ => "ok")
+    ({ r.1 with known := if o.toNat! ∈ m.known then m.known else o.toNat! :: m.known }, r.2)
+  | ["reload", o] => fin (applySteps f s [.reload o.toNat!]) (fun _ => "ok")
+  | ["startMapPush", c, o, p] =>
+    let had := decide (o.toNat! ∈ s.map)
+    fin (applySteps f s [.startMapPush c.toInt! o.toNat! p.toInt!]) (fun _ => if had then "err" else "parked")
+  | ["startPQPush", o] => fin (applySteps f s [.startPQPush o.toNat!]) (fun _ => "ok")
+  | ["finPop", c, o] =>
+    let owns := decide (o.toNat! ∈ s.map) && (s.h.objs o.toNat!).client == c.toInt!
+    fin (applySteps f s [.finPop c.toInt! o.toNat!]) (fun _ => if owns then "parked" else "err")
+  | ["finRemove", o] => fin (applySteps f s [.finRemove o.toNat!]) (fun _ => "ok")
+  | ["reqPop", c, o, d] =>
+    let owns := decide (o.toNat! ∈ s.map) && (s.h.objs o.toNat!).client == c.toInt!
+    fin (applySteps f s [.reqPop c.toInt! o.toNat! d.toInt!]) (fun _ => if owns then "parked" else "err")
+  | ["reqResume", o] =>
+    let n := o.toNat!
+    let d : Option Int := (s.conts.filterMap (fun k => match k with
+      | InFlight.Cont.reqAfterPop o' dd => if o' = n then (some dd : Option Int) else none
+      | _ => none)).head?
+    let hadD := decide (n ∈ s.dmap)
+    fin (applySteps f s [.reqRemove n, .reqPut n]) (fun _ =>
+      match d with
+      | some 0 => "ok"
+      | some _ => if hadD then "err" else "parked"
+      | none => "disabled")
+  | ["deferPQPush", o, p] => fin (applySteps f s [.deferPQPush o.toNat! p.toInt!]) (fun _ => "ok")
+  | ["touchPop", c, o] =>
+    let owns := decide (o.toNat! ∈ s.map) && (s.h.objs o.toNat!).client == c.toInt!
+    fin (applySteps f s [.touchPop c.toInt! o.toNat!]) (fun _ => if owns then "parked" else "err")
+  | ["touchResume", o, p] =>
+    let n := o.toNat!
+    match applySteps f s [.touchRemove n] with
+    | .ok s1 =>
+      let had := decide (n ∈ s1.map)
+      fin (applySteps f s1 [.touchMapPush n p.toInt!]) (fun _ => if had then "err" else "parked")
+    | .error "panic" => ({ m with dead := true }, "panic")
+    | .error e => (m, e)
+  | ["touchPQPush", o] => fin (applySteps f s [.touchPQPush o.toNat!]) (fun _ => "ok")
+  | ["scanPeek", t] =>
+    fin (applySteps f s [.scanPeek t.toInt!]) (fun s' => if s'.conts.length > s.conts.length then "parked" else "ok")
+  | ["scanResume", o, t] =>
+    let n := o.toNat!
+    let had := decide (n ∈ s.map)
+    match applySteps f s [.scanPop n] with
+    | .ok s1 =>
+      if had then
+        fin (applySteps f s1 [.scanPeek t.toInt!]) (fun s' => if s'.conts.length > s1.conts.length then "parked" else "ok")
+      else ({ m with st := s1 }, "ok")
+    | .error "panic" => ({ m with dead := true }, "panic")
+    | .error e => (m, e)
+  | ["dscan", t] => fin (dscanLoop f t.toInt! 64 s) (fun _ => "ok")
+  | ["emptyInit"] => fin (applySteps f s [.emptyResetInflight, .emptyResetDeferred]) (fun _ => "parked")
+  | ["emptyRest"] => fin (applySteps f s [.emptyRest]) (fun _ => "ok")
+  | _ => (m, "bad-op")
+
+structure DS where
+  life : Life.St := Life.init 0
+  micro : MS := {}
+  persist : Restart.Persist := { metadata := [], dq := [], closed := [] }
+
+partial def loop (h : IO.FS.Stream) (out : IO.FS.Stream) (st : DS) : IO Unit := do
+  let line ← h.getLine
+  if line.isEmpty then return ()
+  let w := words (line.trimRight)
+  if w.head? == some "if" then
+    let r := microOp st.micro w.tail
+    out.putStrLn r.2
+    loop h out { st with micro := r.1 }
+  else if w == ["closeall"] then
+    let p := Restart.closeAll st.life
+    out.putStrLn s!"ok closed=[{joinC ((sortNats p.closed).map toString)}]"
+    -- until `reload` the model state only keeps what is on disk (for the `files` line)
+    loop h out { st with persist := p, life := Restart.reload st.life.memCap p }
+  else if w.head? == some "reload" then
+    out.putStrLn "ok"
+    loop h out { st with life := Restart.reload (w.getD 1 "0").toNat! st.persist }
+  else if w == ["filesexact"] then
+    out.putStrLn (filesStr st.life)
+    loop h out st
+  else
+  match lifeOp st.life w with
+  | some (s', a) =>
+    out.putStrLn a
+    loop h out { st with life := s' }
+  | none =>
+    out.putStrLn "bad-op"
+    loop h out st
+
+end E5
+
+def main : IO Unit := do
+  let stdin ← IO.getStdin
+  let stdout ← IO.getStdout
+  E5.loop stdin stdout {}
